@@ -87,6 +87,10 @@ type protoSpec struct {
 	noStatus  bool // the frame format has no status field (gap recorded under C04)
 	noPipe    bool
 	msgFramed bool // frame boundaries come from the transport (one websocket message = one frame)
+	// narrower documented field sets (nil: the message model as is)
+	adapt      func(mmsg) mmsg         // renames a model message into the protocol's field set
+	norm       func(mmsg) (mmsg, bool) // the expectation for a message, false when outside the supported set
+	structBody bool                    // the body is a thrift struct
 }
 
 func protoSpecs() []protoSpec {
@@ -100,8 +104,49 @@ func protoSpecs() []protoSpec {
 	}
 }
 
+// allSpecs: the six general protocols plus the two with a narrower field set.
+func allSpecs() []protoSpec { return append(protoSpecs(), extraSpecs()...) }
+
+// buildFor is build with the protocol's body representation.
+func buildFor(spec protoSpec, m mmsg) socket.Message {
+	msg := build(m)
+	if spec.structBody {
+		msg.SetBody(&tsBody{Data: m.Body})
+	}
+	return msg
+}
+
+// newIn returns an empty message prepared for receiving through spec.
+func newInSetting(spec protoSpec) socket.MessageSetting {
+	if spec.structBody {
+		return socket.WithNewBody(func(socket.Header) interface{} { return new(tsBody) })
+	}
+	return socket.WithNewBody(func(socket.Header) interface{} { return new([]byte) })
+}
+
+// expectFor is what unpacking m through spec must yield, or false when m is outside the protocol's field set.
+func expectFor(spec protoSpec, m mmsg) (mmsg, bool) {
+	if !inDomain(spec, m) {
+		return m, false
+	}
+	e := expectOf(m)
+	if spec.norm != nil {
+		return spec.norm(e)
+	}
+	return e, true
+}
+
+// extractFor reads a received message back into the model.
+func extractFor(spec protoSpec, msg socket.Message) mmsg {
+	o := extract(msg)
+	if spec.name == "http" {
+		o = httpStrip(o)
+	}
+	return o
+}
+
 func specByName(n string) protoSpec {
-	for _, s := range protoSpecs() {
+	for _, s := range allSpecs() {
 		if s.name == n {
 			return s
 		}
@@ -147,6 +192,9 @@ func extract(msg socket.Message) mmsg {
 	msg.Meta().VisitAll(func(k, v []byte) { o.Meta = append(o.Meta, [2]string{string(k), string(v)}) })
 	if b, ok := msg.Body().(*[]byte); ok && b != nil {
 		o.Body = append([]byte{}, (*b)...)
+	}
+	if b, ok := msg.Body().(*tsBody); ok && b != nil {
+		o.Body = append([]byte{}, b.Data...)
 	}
 	o.Pipe = append([]byte{}, msg.XferPipe().IDs()...)
 	return o
@@ -211,17 +259,17 @@ func roundtrip(spec protoSpec, m mmsg) (out mmsg, wire []byte, err error, panick
 	}()
 	rw := &memRW{}
 	p := spec.pf(rw)
-	if err = p.Pack(build(m)); err != nil {
+	if err = p.Pack(buildFor(spec, m)); err != nil {
 		return out, nil, fmt.Errorf("pack: %v", err), nil
 	}
 	wire = append([]byte{}, rw.w.Bytes()...)
 	rw2 := &memRW{r: bytes.NewReader(wire)}
 	p2 := spec.pf(rw2)
-	in := socket.NewMessage(socket.WithNewBody(func(socket.Header) interface{} { return new([]byte) }))
+	in := socket.NewMessage(newInSetting(spec))
 	if err = p2.Unpack(in); err != nil {
 		return out, wire, fmt.Errorf("unpack: %v", err), nil
 	}
-	return extract(in), wire, nil, nil
+	return extractFor(spec, in), wire, nil, nil
 }
 
 var c05Seqs = []int32{1, 0, -1, 35, 36, math.MaxInt32, math.MinInt32}
@@ -303,7 +351,11 @@ func inDomain(spec protoSpec, m mmsg) bool {
 }
 
 func c05Check(c *EnumCtx, spec protoSpec, m mmsg, class string) {
-	if !inDomain(spec, m) {
+	if spec.adapt != nil {
+		m = spec.adapt(m)
+	}
+	want, ok := expectFor(spec, m)
+	if !ok {
 		return
 	}
 	if !c.Mine() {
@@ -320,7 +372,14 @@ func c05Check(c *EnumCtx, spec protoSpec, m mmsg, class string) {
 		c.Fail(fmt.Sprintf("%s: round trip fails (%s): %s", spec.name, class, errClass(err)), m.String(), err.Error())
 		return
 	}
-	if d := sameMsg(expectOf(m), out); d != "" {
+	if d := sameMsg(want, out); d != "" {
+		if k := httpStatusClass(want, out); spec.name == "http" && k != "" {
+			out.Stat = want.Stat
+			if sameMsg(want, out) == "" {
+				c.Fail(k, m.String(), d)
+				return
+			}
+		}
 		c.Fail(fmt.Sprintf("%s: round trip changes the message (%s): %s", spec.name, class, fieldOf(d)), m.String(), d)
 	}
 }
@@ -345,7 +404,7 @@ func c05Roundtrip(c *EnumCtx) {
 	begin()
 	full := c.P.Get("alphabet", "quick") == "full"
 	base := mmsg{Seq: 7, Mtype: 1, Method: "/a", Codec: 'j', Body: []byte(`{"x":1}`)}
-	for _, spec := range protoSpecs() {
+	for _, spec := range allSpecs() {
 		if only := c.P.Get("proto", ""); only != "" && only != spec.name {
 			continue
 		}
@@ -384,6 +443,26 @@ func c05Roundtrip(c *EnumCtx) {
 				}
 			}
 			c05Check(c, spec, m, cl)
+		}
+		if spec.name == "http" {
+			// metadata that are HTTP header fields (canonical keys): requests and replies, with and without a non-OK status
+			for _, me := range [][][2]string{{{"X-A", "1"}}, {{"Rk", "rv"}}, {{"X-B", "2"}, {"X-A", "1"}}, {{"X-Empty", ""}}, {{"Authorization", "Bearer+abc/=="}}, {{"X-A", "a:b"}, {"Cookie", "k=v;k2=v2"}}} {
+				for _, t := range []byte{1, 2} {
+					m := base
+					m.Mtype = t
+					m.Meta = me
+					c05Check(c, spec, m, "meta-header")
+					if t == 2 {
+						m.Stat = [3]string{"500", "m", "c"}
+						c05Check(c, spec, m, "meta-header")
+					}
+				}
+			}
+			for _, me := range []string{"/a/b", "/a_b/c-d.e", "/", "/A/1"} {
+				m := base
+				m.Method = me
+				c05Check(c, spec, m, "method")
+			}
 		}
 		for _, cd := range []byte{'j', 0, 'p', 's', 'f', 'x', 't'} { // every registered codec id and 0
 			m := base
@@ -449,7 +528,7 @@ func c05Roundtrip(c *EnumCtx) {
 func c05Stream(c *EnumCtx) {
 	begin()
 	maxFrames := c.P.Int("frames", 2)
-	alphabet := []mmsg{
+	alphabet0 := []mmsg{
 		{Seq: 1, Mtype: 1, Method: "/a", Codec: 'j', Body: []byte(`{"x":1}`)},
 		{Seq: 2, Mtype: 2, Method: "/a", Stat: [3]string{"500", "m", "c"}},
 		{Seq: 3, Mtype: 3, Method: "/p", Meta: [][2]string{{"k", "v"}, {"k", "w"}}, Codec: 'j', Body: []byte(`"s"`)},
@@ -458,12 +537,20 @@ func c05Stream(c *EnumCtx) {
 		{Seq: 5, Mtype: 2, Method: "", Codec: 0, Body: nil},
 		{Seq: 6, Mtype: 1, Method: "/m", Codec: 'p', Body: []byte{0, 1, 2, 255}, Pipe: []byte{'m'}},
 	}
-	for _, spec := range protoSpecs() {
+	alphabet := alphabet0
+	for _, spec := range allSpecs() {
 		if only := c.P.Get("proto", ""); only != "" && only != spec.name {
 			continue
 		}
 		if spec.msgFramed {
 			continue
+		}
+		alphabet := alphabet
+		if spec.adapt != nil {
+			alphabet = nil
+			for _, m := range alphabet0 {
+				alphabet = append(alphabet, spec.adapt(m))
+			}
 		}
 		var seqs [][]int
 		var gen func(cur []int)
@@ -482,7 +569,7 @@ func c05Stream(c *EnumCtx) {
 		for _, sq := range seqs {
 			ok := true
 			for _, i := range sq {
-				if !inDomain(spec, alphabet[i]) {
+				if _, in := expectFor(spec, alphabet[i]); !in {
 					ok = false
 				}
 			}
@@ -504,12 +591,13 @@ func c05StreamCase(c *EnumCtx, spec protoSpec, alphabet []mmsg, sq []int) {
 			c.Fail(spec.name+": stream decode panics", name, fmt.Sprint(r))
 		}
 	}()
+	want := func(i int) mmsg { e, _ := expectFor(spec, alphabet[i]); return e }
 	// one protocol instance packs all frames (connection lifetime)
 	rw := &memRW{}
 	p := spec.pf(rw)
 	var sizesPacked []uint32
 	for _, i := range sq {
-		m := build(alphabet[i])
+		m := buildFor(spec, alphabet[i])
 		if err := p.Pack(m); err != nil {
 			c.Fail(spec.name+": pack fails in stream", name, err.Error())
 			return
@@ -525,9 +613,9 @@ func c05StreamCase(c *EnumCtx, spec protoSpec, alphabet []mmsg, sq []int) {
 		}
 		rwa := &memRW{}
 		pa := spec.pf(rwa)
-		pa.Pack(build(alphabet[i]))
+		pa.Pack(buildFor(spec, alphabet[i]))
 		rwb := &memRW{r: bytes.NewReader(rwa.w.Bytes())}
-		in := socket.NewMessage(socket.WithNewBody(func(socket.Header) interface{} { return new([]byte) }))
+		in := socket.NewMessage(newInSetting(spec))
 		if err := spec.pf(rwb).Unpack(in); err != nil {
 			c.Fail(spec.name+": unpack of a single frame fails", name, err.Error())
 			return
@@ -542,20 +630,20 @@ func c05StreamCase(c *EnumCtx, spec protoSpec, alphabet []mmsg, sq []int) {
 		defer func() {
 			// messages decoded earlier must still hold their own data after later frames were decoded
 			for k, in := range kept {
-				if d := sameMsg(expectOf(alphabet[sq[k]]), extract(in)); d != "" {
+				if d := sameMsg(want(sq[k]), extractFor(spec, in)); d != "" {
 					c.Fail(spec.name+": a decoded message changed while later frames were decoded ("+what+"): "+fieldOf(d), fmt.Sprintf("%s chunks=%v frame#%d", name, sizes, k), d)
 					return
 				}
 			}
 		}()
 		for k, i := range sq {
-			in := socket.NewMessage(socket.WithNewBody(func(socket.Header) interface{} { return new([]byte) }))
+			in := socket.NewMessage(newInSetting(spec))
 			kept = append(kept, in)
 			if err := pr.Unpack(in); err != nil {
 				c.Fail(spec.name+": stream loses frame sync ("+what+")", fmt.Sprintf("%s chunks=%v frame#%d", name, sizes, k), err.Error())
 				return
 			}
-			if d := sameMsg(expectOf(alphabet[i]), extract(in)); d != "" {
+			if d := sameMsg(want(i), extractFor(spec, in)); d != "" {
 				c.Fail(spec.name+": stream decodes a different frame ("+what+"): "+fieldOf(d), fmt.Sprintf("%s chunks=%v frame#%d", name, sizes, k), d)
 				return
 			}
@@ -572,12 +660,12 @@ func c05StreamCase(c *EnumCtx, spec protoSpec, alphabet []mmsg, sq []int) {
 		pr := spec.pf(&memRW{r: bytes.NewReader(stream)})
 		in := socket.NewMessage()
 		for k, i := range sq {
-			in.Reset(socket.WithNewBody(func(socket.Header) interface{} { return new([]byte) }))
+			in.Reset(newInSetting(spec))
 			if err := pr.Unpack(in); err != nil {
 				c.Fail(spec.name+": stream loses frame sync (reused message)", fmt.Sprintf("%s frame#%d", name, k), err.Error())
 				return
 			}
-			if d := sameMsg(expectOf(alphabet[i]), extract(in)); d != "" {
+			if d := sameMsg(want(i), extractFor(spec, in)); d != "" {
 				c.Fail(spec.name+": a frame decoded into a reused message differs from the frame sent: "+fieldOf(d), fmt.Sprintf("%s frame#%d", name, k), d)
 				return
 			}
@@ -601,7 +689,7 @@ func c05StreamCase(c *EnumCtx, spec protoSpec, alphabet []mmsg, sq []int) {
 // c04Frames: a REPLY carrying each status survives Pack -> Unpack on every protocol, including the websocket sub-protocols.
 func c04Frames(c *EnumCtx) {
 	begin()
-	for _, spec := range protoSpecs() {
+	for _, spec := range allSpecs() {
 		for _, code := range c04Codes {
 			for _, msg := range c04Strs {
 				for _, cause := range c04Strs {
@@ -609,6 +697,12 @@ func c04Frames(c *EnumCtx) {
 						continue
 					}
 					m := mmsg{Seq: 9, Mtype: 2, Method: "/a", Stat: [3]string{fmt.Sprint(code), msg, cause}}
+					if spec.name == "http" {
+						m.Codec = 'j'
+					}
+					if spec.adapt != nil {
+						m = spec.adapt(m)
+					}
 					out, _, err, pan := roundtrip(spec, m)
 					c.Case(spec.name+"/"+fmt.Sprint(code), spec.name+" "+m.String())
 					if pan != nil || err != nil {
@@ -616,6 +710,10 @@ func c04Frames(c *EnumCtx) {
 						continue
 					}
 					if e := expectOf(m); out.Stat != e.Stat {
+						if k := httpStatusClass(e, out); spec.name == "http" && k != "" {
+							c.Fail(k, m.String(), fmt.Sprintf("sent %q, received %q", e.Stat, out.Stat))
+							continue
+						}
 						c.Fail(spec.name+": the status of a reply frame is lost or altered on the wire", m.String(), fmt.Sprintf("sent %q, received %q", e.Stat, out.Stat))
 					}
 				}
